@@ -137,7 +137,8 @@ class Exits:
                 if re.sub(r'[()*]', '', place.strip()) == norm and re.search(r'(?<![\d_])_1(?!\d)', place):
                     if name in self.cap_env:
                         return self.cap_env[name]
-                    return 'cap:' + name
+                    k = re.search(r'_1\)?\.(\d+)', place)
+                    return 'capture#%s' % (k.group(1) if k else '?')
         m = re.fullmatch(r'_(\d+)', pl)
         if m:
             return self.local(int(m.group(1)), depth)
